@@ -46,18 +46,12 @@ type vsStream struct {
 	honorDl   bool         // return a timeout error when the read deadline passes
 	dlMu      sync.Mutex
 	rddl      time.Time
-	readAt    []int64 // unix nanos at which each item was returned from Read (watchdog driver)
-	readKind  []string
-	curKind   string
 
-	wmu      sync.Mutex
-	amt      uint64
-	maxAmt   uint64
-	th       uint64
-	onLow    func()
-	writes   int
-	wbytes   uint64
-	lastData []byte
+	wmu    sync.Mutex
+	amt    uint64 // BufferedAmount()
+	maxAmt uint64 // its high-water mark
+	th     uint64
+	onLow  func()
 }
 
 func vsNewStream() *vsStream {
@@ -113,8 +107,6 @@ func (s *vsStream) Write(b []byte) (int, error) {
 	if s.amt > s.maxAmt {
 		s.maxAmt = s.amt
 	}
-	s.writes++
-	s.wbytes += uint64(len(b))
 	s.wmu.Unlock()
 	return len(b), nil
 }
